@@ -13,6 +13,12 @@
 //	         block handed to the pool (EventAddBlock) then probed.
 //	para     exported predicates with the coins executor type bound to a
 //	         para-chain configuration (real recipient differs from To) -> CScen
+//	hist-*   histories in ONE process: one transaction body (one Hash()) signed by
+//	         several accounts (clean signer then listed signer, the reverse, triples),
+//	         each copy put through the enforcement points (exported predicates,
+//	         EventExecTxList, AddTxsToBlock, EventTx, EventAddDelayTx, delayed
+//	         transaction in a block) one after the other, with blacklist reloads
+//	         only where the history says so                          -> CHist
 package main
 
 import (
@@ -147,6 +153,7 @@ type node struct {
 	tip    *types.Block
 	actors []*actor // senders (funded)
 	recips []*actor // pure recipients
+	unfunded *actor // a key without coins (histories)
 	all    []*actor
 	proxy  string
 	nonce  int64
@@ -228,6 +235,13 @@ func newNode() *node {
 		n.recips = append(n.recips, a)
 	}
 	n.all = append(append([]*actor{}, n.actors...), n.recips...)
+	{
+		k := keyFrom(byte(90))
+		a := &actor{Name: "U0", priv: k, sigTy: types.SECP256K1}
+		a.Addr = address.PubKeyToAddr(0, k.PubKey().Bytes())
+		a.Raw = rawOf(a.Addr)
+		n.unfunded = a
+	}
 	// funding (miner still running)
 	gen := m.GetGenesisKey()
 	for _, a := range n.actors {
@@ -1085,6 +1099,415 @@ func (n *node) paraPhase(out *hlib.Out, ins []paraIn) {
 	et.SetConfig(old)
 }
 
+// ---------------------------------------------------------------- histories (one process, many checks)
+//
+// One transaction body (fixed nonce, so one Hash()) is signed by several accounts and the
+// differently signed copies are put through the enforcement points one after the other, with
+// blacklist loads only where the history says so. Observables that need the reply "without a
+// blacklist" are taken in a preliminary phase, before the first load of the history.
+
+type hstepD struct {
+	Op   string   `json:"op"`             // load | pred | exec | prod | pool | delay | dblock
+	L    []string `json:"L,omitempty"`    // load: the list
+	From int      `json:"from,omitempty"` // asks: signer (index into actors; 6 = the unfunded account)
+	H    int64    `json:"h,omitempty"`    // asks: call height
+}
+
+type histD struct {
+	Body  txD      `json:"body"` // coins | none | evm; From is not used
+	Grp   bool     `json:"grp,omitempty"`  // submitted as the second member of a group [none transaction, body]
+	Head  int      `json:"head,omitempty"` // group: signer of the first member
+	Steps []hstepD `json:"steps"`
+}
+
+const unfundedIx = 6
+
+func (n *node) signer(ix int) *actor {
+	if ix == unfundedIx {
+		return n.unfunded
+	}
+	a := n.actors[ix%len(n.actors)]
+	if a.priv == nil {
+		a = n.actors[0]
+	}
+	return a
+}
+
+type hvariant struct {
+	entry   *types.Transaction
+	members []*types.Transaction
+	ixs     []int // positions of the members in the facts table
+	inner   int   // position of the unwrapped inner transaction, -1 = none
+	execB   map[int64][]uint64
+	poolB   string
+}
+
+// variant builds the submission of the history signed by account `from`
+func (n *node) variant(h histD, nonce int64, from int) (entry *types.Transaction, members []*types.Transaction) {
+	a := n.signer(from)
+	body := n.buildUnsigned(h.Body, nonce)
+	if !h.Grp {
+		body.Sign(a.sigTy, a.priv)
+		return body, []*types.Transaction{body}
+	}
+	head := n.buildUnsigned(txD{Kind: "none"}, nonce+1)
+	g, err := types.CreateTxGroup([]*types.Transaction{head, body}, n.cfg.GetMinTxFeeRate())
+	if err != nil {
+		die("hist CreateTxGroup: %v", err)
+	}
+	hs := n.signer(h.Head)
+	if err := g.SignN(0, hs.sigTy, hs.priv); err != nil {
+		die("hist SignN: %v", err)
+	}
+	if err := g.SignN(1, a.sigTy, a.priv); err != nil {
+		die("hist SignN: %v", err)
+	}
+	e := g.Tx()
+	gg, err := e.GetTxGroup()
+	if err != nil || gg == nil {
+		die("hist GetTxGroup: %v", err)
+	}
+	return e, gg.GetTxs()
+}
+
+func listedRaw(L []string, raw []byte) bool {
+	for _, l := range L {
+		if r := rawOf(l); r != nil && string(r) == string(raw) {
+			return true
+		}
+	}
+	return false
+}
+
+func nlist(v []int) string {
+	it := make([]string, len(v))
+	for i, x := range v {
+		it[i] = hlib.N(uint64(x))
+	}
+	return hlib.List(it)
+}
+
+func (n *node) runHist(o *hlib.Out, kind string, h histD) {
+	setBL(nil)
+	tab := cktab{}
+	poolH := n.tip.Height
+	nonce := int64(1)<<41 + n.nextNonce()<<4
+	var facts []string
+	vars := map[int]*hvariant{}
+	var order []int
+	var hashes [][]byte
+	// preliminary phase (empty blacklist): facts and baselines of every signed copy
+	for _, st := range h.Steps {
+		if st.Op == "load" {
+			for _, l := range st.L {
+				tab.add(l)
+			}
+			continue
+		}
+		v := vars[st.From]
+		if v == nil {
+			v = &hvariant{inner: -1, execB: map[int64][]uint64{}}
+			v.entry, v.members = n.variant(h, nonce, st.From)
+			for _, m := range v.members {
+				v.ixs = append(v.ixs, len(facts))
+				facts = append(facts, n.facts(m, poolH, tab))
+			}
+			if len(v.members) == 1 {
+				if in := innerOf(v.entry); in != nil {
+					v.inner = len(facts)
+					facts = append(facts, n.facts(in, poolH, tab))
+				}
+			}
+			vars[st.From] = v
+			order = append(order, st.From)
+			var hs []byte
+			for _, m := range v.members {
+				hs = append(hs, m.Hash()...)
+			}
+			hashes = append(hashes, hs)
+		}
+		switch st.Op {
+		case "exec":
+			if _, ok := v.execB[st.H]; !ok && st.H >= 1 {
+				v.execB[st.H] = n.execTypes(st.H, v.members)
+			}
+		case "pool":
+			if v.poolB == "" {
+				v.poolB = n.poolSend(v.entry)
+			}
+		}
+	}
+	sameHash := true
+	for _, hs := range hashes {
+		if string(hs) != string(hashes[0]) {
+			sameHash = false
+		}
+	}
+	if !sameHash {
+		die("history: the signed copies do not share their hashes")
+	}
+	// the history itself
+	var steps []string
+	var impl []interface{}
+	var cur []string
+	nontriv := false
+	load := func(L []string) {
+		if !setBL(L) {
+			die("history: list does not load: %v", L)
+		}
+		cur = L
+		steps = append(steps, hlib.App("SLoad", listS(L)))
+		impl = append(impl, map[string]interface{}{"load": L})
+	}
+	delayed := false // the body's hash sits in the delay cache
+	for _, st := range h.Steps {
+		if st.Op == "load" {
+			load(st.L)
+			continue
+		}
+		v := vars[st.From]
+		if listedRaw(cur, n.signer(st.From).Raw) {
+			nontriv = true
+		}
+		pt := ""
+		var ob interface{}
+		extraLoad := false
+		switch st.Op {
+		case "pred":
+			var oTx, oImm []bool
+			for _, m := range v.members {
+				oTx = append(oTx, blocked(types.CheckTxBlockedAccount(n.cfg, st.H, m)))
+				oImm = append(oImm, blocked(types.CheckTxBlockedAccountImmediate(m)))
+			}
+			oTxs := blocked(types.CheckTxsBlockedAccount(n.cfg, st.H, v.members))
+			oTxsImm := blocked(types.CheckTxsBlockedAccountImmediate(v.members))
+			oNil := blocked(types.CheckTxBlockedAccount(nil, st.H, v.members[0]))
+			pt = hlib.App("PtPred", bools(oTx), bools(oImm), hlib.Bool(oTxs), hlib.Bool(oTxsImm), hlib.Bool(oNil))
+			ob = map[string]interface{}{"tx": oTx, "imm": oImm, "txs": oTxs, "txsimm": oTxsImm}
+			nontriv = nontriv || oTxsImm
+		case "exec":
+			base := v.execB[st.H]
+			if st.H < 1 || base == nil {
+				continue
+			}
+			with := n.execTypes(st.H, v.members)
+			if with == nil {
+				continue
+			}
+			pt = hlib.App("PtExec", ns(base), ns(with))
+			ob = [][]uint64{base, with}
+		case "prod":
+			filler := n.coinsTx(n.mock.GetGenesisKey(), types.SECP256K1, fillerTo, 1)
+			blk := &types.Block{Height: st.H}
+			added := n.solo.AddTxsToBlock(blk, []*types.Transaction{v.entry, filler})
+			kept := uint64(0)
+			fillerKept := false
+			for _, a := range added {
+				if a == filler {
+					fillerKept = true
+				} else {
+					kept++
+				}
+			}
+			pt = hlib.App("PtProd", hlib.N(kept), hlib.Bool(fillerKept))
+			ob = []interface{}{kept, fillerKept}
+		case "pool":
+			hdr := n.mock.GetLastBlock().Height + 1
+			preOk := types.NewTransactionCache(v.entry).Check(n.cfg, hdr, n.cfg.GetModuleConfig().Mempool.MinTxFeeRate, n.cfg.GetMaxTxFee(hdr)) == nil
+			if preOk {
+				if _, err := v.entry.GetTxGroup(); err != nil {
+					preOk = false
+				}
+			}
+			with := n.poolSend(v.entry)
+			pt = hlib.App("PtPool", hlib.Bool(preOk), v.poolB, with)
+			ob = []interface{}{preOk, v.poolB, with}
+			nontriv = nontriv || with == "RBlocked"
+		case "delay":
+			if h.Grp {
+				continue
+			}
+			base := "ROk"
+			if delayed {
+				base = "ROther" // ErrDupTx of the delay cache
+			}
+			c, _ := n.delaySend(v.entry)
+			if c == "ROk" {
+				delayed = true
+			}
+			pt = hlib.App("PtDelay", base, c)
+			ob = []string{base, c}
+			nontriv = nontriv || c == "RBlocked"
+		case "dblock":
+			if h.Grp || delayed {
+				continue
+			}
+			cached, ok := n.delayBlockHist(v.entry)
+			delayed = true
+			extraLoad = true
+			if !ok {
+				load(cur)
+				continue
+			}
+			pt = hlib.App("PtDblock", hlib.Bool(cached))
+			ob = cached
+		default:
+			die("history: unknown op %q", st.Op)
+		}
+		inner := "None"
+		if v.inner >= 0 {
+			inner = "(Some " + hlib.N(uint64(v.inner)) + ")"
+		}
+		steps = append(steps, hlib.App("SAsk", hlib.Z(st.H), nlist(v.ixs), inner, hlib.List([]string{pt})))
+		impl = append(impl, map[string]interface{}{"op": st.Op, "from": st.From, "obs": ob})
+		if extraLoad {
+			load(cur) // the probe of the delay cache emptied the list: what follows runs after a reload
+		}
+	}
+	setBL(nil)
+	term := hlib.App("CHist", tab.coq(), hlib.Z(n.cfg.GetFork(types.ForkAccountBlacklist)), hlib.Z(n.cfg.GetFork("ForkProxyExec")),
+		S(n.proxy), hlib.List(facts), hlib.List(steps))
+	o.Emit(kind, nontriv, term, h, impl)
+}
+
+// delayBlockHist: like delayBlock, but the list is not touched before the block is handled
+func (n *node) delayBlockHist(tx *types.Transaction) (cached bool, ok bool) {
+	delayEnd++
+	action := &nty.NoneAction{Ty: nty.TyCommitDelayTxAction, Value: &nty.NoneAction_CommitDelayTx{CommitDelayTx: &nty.CommitDelayTx{
+		DelayTx: common.ToHex(types.Encode(tx)), RelativeDelayHeight: delayEnd}}}
+	btx := &types.Transaction{Execer: []byte(nty.NoneX), Payload: types.Encode(action), To: address.ExecAddress(nty.NoneX)}
+	blk := &types.Block{Height: n.tip.Height, BlockTime: n.tip.BlockTime, Txs: []*types.Transaction{btx}}
+	cl := n.mock.GetClient()
+	if err := cl.Send(cl.NewMessage("mempool", types.EventAddBlock, &types.BlockDetail{Block: blk}), false); err != nil {
+		return false, false
+	}
+	if _, err := n.mock.GetAPI().GetLastMempool(); err != nil {
+		return false, false
+	}
+	setBL(nil)
+	_, err := n.delaySend(tx)
+	if err == nil {
+		return false, true
+	}
+	if strings.Contains(err.Error(), types.ErrDupTx.Error()) {
+		return true, true
+	}
+	return false, false
+}
+
+var histPoints = []string{"pred", "exec", "prod", "pool", "delay"}
+
+func (n *node) histBody(r *hlib.Rng, avoid map[string]bool) txD {
+	pick := func() string {
+		for {
+			a := hlib.Pick(r, n.recips)
+			if !avoid[a.Name] {
+				return spellings(r, a.Addr)
+			}
+		}
+	}
+	switch r.Intn(6) {
+	case 0:
+		return txD{Kind: "none"}
+	case 1:
+		return txD{Kind: "evm", Execer: hlib.Pick(r, []string{"evm", "user.evm.tok", "user.p.para.evm"}), CAddr: pick()}
+	default:
+		return txD{Kind: "coins", To: pick()}
+	}
+}
+
+func histHeight(r *hlib.Rng) int64 {
+	return int64(hlib.Pick(r, []int{forkH, forkH, forkH, forkH + 1, 1000, forkH - 1, 1}))
+}
+
+// pair: [load L; first signer at p1; second signer at p2]; the listed signer is second (or first when rev);
+// the body itself does not touch the list
+func (n *node) genHistPair(r *hlib.Rng, p1, p2 string, rev bool) histD {
+	listed := r.Intn(5)
+	clean := (listed + 1 + r.Intn(4)) % 5
+	if r.Chance(1, 4) {
+		clean = unfundedIx
+	}
+	h := histD{Body: n.histBody(r, nil), Grp: r.Chance(1, 5) && p1 != "delay" && p2 != "delay"}
+	L := []string{spellings(r, n.actors[listed].Addr)}
+	if r.Chance(1, 3) {
+		x := hlib.Pick(r, n.recips)
+		if string(rawOf(h.Body.To)) != string(x.Raw) && string(rawOf(h.Body.CAddr)) != string(x.Raw) {
+			L = append(L, spellings(r, x.Addr))
+		}
+	}
+	hh := histHeight(r)
+	a, b := clean, listed
+	if rev {
+		a, b = listed, clean
+	}
+	if h.Grp {
+		h.Head = clean
+	}
+	h.Steps = []hstepD{{Op: "load", L: L}, {Op: p1, From: a, H: hh}, {Op: p2, From: b, H: hh}}
+	if r.Chance(1, 3) {
+		h.Steps = append(h.Steps, hstepD{Op: hlib.Pick(r, histPoints), From: a, H: hh}, hstepD{Op: hlib.Pick(r, histPoints), From: b, H: hh})
+	}
+	return h
+}
+
+// random: 2-3 signers, 3-7 steps, loads in between
+func (n *node) genHistRand(r *hlib.Rng) histD {
+	h := histD{Body: n.histBody(r, nil), Grp: r.Chance(1, 4)}
+	signers := []int{r.Intn(5), r.Intn(5), hlib.Pick(r, []int{0, 1, 2, 3, 4, unfundedIx})}
+	genL := func() []string {
+		var L []string
+		for _, s := range signers {
+			if s != unfundedIx && r.Chance(1, 2) {
+				L = append(L, spellings(r, n.actors[s].Addr))
+			}
+		}
+		if r.Chance(1, 3) {
+			L = append(L, spellings(r, hlib.Pick(r, n.recips).Addr))
+		}
+		return L
+	}
+	if h.Grp {
+		h.Head = hlib.Pick(r, signers)
+	}
+	h.Steps = append(h.Steps, hstepD{Op: "load", L: genL()})
+	k := r.Range(3, 7)
+	pts := append([]string{"dblock"}, histPoints...)
+	for i := 0; i < k; i++ {
+		if r.Chance(1, 5) {
+			h.Steps = append(h.Steps, hstepD{Op: "load", L: genL()})
+			continue
+		}
+		op := hlib.Pick(r, pts)
+		if h.Grp && (op == "delay" || op == "dblock") {
+			op = "pred"
+		}
+		h.Steps = append(h.Steps, hstepD{Op: op, From: hlib.Pick(r, signers), H: histHeight(r)})
+	}
+	return h
+}
+
+// reload: the same transaction asked under lists that do / do not name its sender or recipient
+func (n *node) genHistReload(r *hlib.Rng) histD {
+	x := r.Intn(5)
+	rc := hlib.Pick(r, n.recips)
+	h := histD{Body: txD{Kind: "coins", To: spellings(r, rc.Addr)}}
+	other := spellings(r, n.actors[(x+1)%5].Addr)
+	hit := []string{spellings(r, n.actors[x].Addr)}
+	if r.Chance(1, 2) {
+		hit = []string{spellings(r, rc.Addr)}
+	}
+	hh := histHeight(r)
+	p := func() string { return hlib.Pick(r, histPoints) }
+	h.Steps = []hstepD{
+		{Op: "load", L: []string{other}}, {Op: p(), From: x, H: hh},
+		{Op: "load", L: append([]string{other}, hit...)}, {Op: p(), From: x, H: hh}, {Op: p(), From: x, H: hh},
+		{Op: "load", L: []string{other}}, {Op: p(), From: x, H: hh},
+		{Op: "load", L: hit}, {Op: p(), From: x, H: hh},
+	}
+	return h
+}
+
 // ---------------------------------------------------------------- main
 
 func main() {
@@ -1121,6 +1544,12 @@ func main() {
 				die("replay: %v", err)
 			}
 			runNameIn(e, out)
+		case strings.HasPrefix(k, "hist") || strings.HasPrefix(k, "w-hist"):
+			var h histD
+			if err := json.Unmarshal(rf.Case.Input, &h); err != nil {
+				die("replay: %v", err)
+			}
+			n.runHist(out, k, h)
 		case k == "para":
 			var in paraIn
 			if err := json.Unmarshal(rf.Case.Input, &in); err != nil {
@@ -1142,8 +1571,13 @@ func main() {
 	if opts.Thorough() {
 		nScen, nParse, nName, nPara = 1600, 3000, 600, 600
 	}
+	nPairRounds, nPairRev, nHistRand, nHistReload := 1, 10, 24, 10
+	if opts.Thorough() {
+		nPairRounds, nPairRev, nHistRand, nHistReload = 8, 100, 600, 200
+	}
 	if opts.Extra == "probe" {
 		nScen, nParse, nName, nPara = 4, 3, 3, 3
+		nPairRev, nHistRand, nHistReload = 2, 3, 2
 	}
 
 	// hand-written small cases first: plain, spelling, and the witnesses of the open findings
@@ -1165,6 +1599,28 @@ func main() {
 	for _, w := range witnesses {
 		n.runScen(out, w.k, w.s)
 	}
+	// histories: the same body from a clean signer, then from the listed one
+	{
+		s0, s1 := n.actors[0].Addr, n.actors[1].Addr
+		hw := []struct {
+			k string
+			h histD
+		}{
+			{"w-hist-pred", histD{Body: txD{Kind: "coins", To: r1}, Steps: []hstepD{
+				{Op: "load", L: []string{s0}}, {Op: "pred", From: 1, H: forkH}, {Op: "pred", From: 0, H: forkH}}}},
+			{"w-hist-node", histD{Body: txD{Kind: "coins", To: r1}, Steps: []hstepD{
+				{Op: "load", L: []string{s1}}, {Op: "pool", From: unfundedIx, H: forkH}, {Op: "pool", From: 1, H: forkH},
+				{Op: "prod", From: 1, H: forkH}, {Op: "exec", From: 1, H: forkH}}}},
+			{"w-hist-group", histD{Body: txD{Kind: "coins", To: r1}, Grp: true, Head: 1, Steps: []hstepD{
+				{Op: "load", L: []string{s0}}, {Op: "exec", From: 2, H: forkH}, {Op: "pred", From: 0, H: forkH}, {Op: "pool", From: 0, H: forkH}}}},
+			{"w-hist-reload", histD{Body: txD{Kind: "coins", To: r0}, Steps: []hstepD{
+				{Op: "load", L: []string{r1}}, {Op: "pool", From: 0, H: forkH}, {Op: "load", L: []string{r1, r0}}, {Op: "pool", From: 0, H: forkH},
+				{Op: "load", L: []string{s0}}, {Op: "delay", From: 0, H: forkH}, {Op: "load", L: nil}, {Op: "dblock", From: 0, H: forkH}}}},
+		}
+		for _, w := range hw {
+			n.runHist(out, w.k, w.h)
+		}
+	}
 	for i := 0; i < nName; i++ {
 		runName(rng.Fork(), out)
 	}
@@ -1182,6 +1638,23 @@ func main() {
 		pins = append(pins, n.genPara(rng.Fork()))
 	}
 	n.paraPhase(out, pins)
+	for k := 0; k < nPairRounds; k++ {
+		for _, p1 := range histPoints {
+			for _, p2 := range histPoints {
+				n.runHist(out, "hist-pair", n.genHistPair(rng.Fork(), p1, p2, false))
+			}
+		}
+	}
+	for i := 0; i < nPairRev; i++ {
+		r := rng.Fork()
+		n.runHist(out, "hist-pair-rev", n.genHistPair(r, hlib.Pick(r, histPoints), hlib.Pick(r, histPoints), true))
+	}
+	for i := 0; i < nHistRand; i++ {
+		n.runHist(out, "hist-rand", n.genHistRand(rng.Fork()))
+	}
+	for i := 0; i < nHistReload; i++ {
+		n.runHist(out, "hist-reload", n.genHistReload(rng.Fork()))
+	}
 	fmt.Printf("hC31: %d cases\n", out.Count())
 	out.Close()
 	os.Exit(0)
